@@ -5,6 +5,7 @@
 #  * public domain *
 #
 
+import itertools
 from typing import List
 
 
@@ -30,9 +31,14 @@ def rldecode(data: bytes) -> bytes:
             break
 
         if 0 <= length < 128:
-            decoded_array.extend((next(data_iter) for _ in range(length + 1)))
+            # copy what is there if the data ends within the run
+            decoded_array.extend(itertools.islice(data_iter, length + 1))
 
         if length > 128:
-            run = [next(data_iter)] * (257 - length)
+            value = next(data_iter, None)
+            if value is None:
+                # the data ends after the length byte
+                break
+            run = [value] * (257 - length)
             decoded_array.extend(run)
     return bytes(decoded_array)
